@@ -5,6 +5,12 @@ C03 – coroutine sinks: "`await logger.complete()` waits for the tasks of its l
 handler lock, hence atomically with respect to `write` – a snapshot of the remembered tasks and then awaits, one
 after the other, those that belong to the loop it is running on (`_complete_task` returns at once for a task of
 another loop).  Tasks are numbered in creation order; an event loop runs (finishes) tasks at any time.
+
+Round 5: CALLING `complete()` (the snapshot) and AWAITING its result are separate transitions – the call may happen in
+another thread, in an executor, in a coroutine of another loop or before any loop runs (`callLoop : Option Nat` is the
+loop running in the calling context, if any), and the object is awaited later in a coroutine of some loop `l`.
+`loopAtAwait` (read from the source: `get_running_loop()` is evaluated inside `_complete_task`, i.e. when the object
+is awaited) says which of the two decides what "its loop" is.
 -/
 namespace Async
 
@@ -18,14 +24,17 @@ structure Task where
 inductive Lab where
   | write (loop : Nat)            -- a message is accepted: its task is created on `loop`
   | run (i : Nat)                 -- an event loop finishes task i
-  | startComplete (loop : Nat)    -- `await logger.complete()` on `loop`: snapshot of the tasks
+  | startComplete (callLoop : Option Nat)   -- `logger.complete()` is CALLED: snapshot of the tasks
+  | beginAwait (loop : Nat)       -- the returned object is AWAITED in a coroutine running on `loop`
   | await                         -- next task of the snapshot: skipped (foreign loop), passed (done) or BLOCKED
   | finish                        -- every task of the snapshot has been dealt with: complete() returns
   deriving DecidableEq, Repr
 
 inductive Pc where
   | idle
-  | c (loop : Nat) (n : Nat) (pos : Nat)     -- completing on `loop`, snapshot = tasks 0..n-1, next to examine: pos
+  | snap (n : Nat) (callLoop : Option Nat)   -- complete() has returned its object: snapshot = tasks 0..n-1
+  | c (loop : Nat) (filt : Option Nat) (n : Nat) (pos : Nat)
+      -- awaited on `loop`; tasks of a loop other than `filt` are skipped; next to examine: pos
   deriving DecidableEq, Repr
 
 structure St where
@@ -41,34 +50,41 @@ def upd {α : Type} (f : Nat → α) (k : Nat) (v : α) : Nat → α := fun u =>
 @[simp] theorem upd_other {α : Type} (f : Nat → α) (k : Nat) (v : α) (u : Nat) (h : u ≠ k) :
     upd f k v u = f u := by simp [upd, h]
 
-/-- `skipForeign` (read from the source): `_complete_task` returns at once for a task of another loop -/
-def step (skipForeign : Bool) (s : St) (t : Tid) (lab : Lab) : Option St :=
+/-- `skipForeign` (read from the source): `_complete_task` returns at once for a task of another loop;
+`loopAtAwait` (read from the source): "another loop" means another than the one running when the object is AWAITED
+(otherwise: than the one running, if any, when complete() was CALLED) -/
+def step (skipForeign loopAtAwait : Bool) (s : St) (t : Tid) (lab : Lab) : Option St :=
   match lab, s.pc t with
   | .write l, _ => some { s with count := s.count + 1, task := upd s.task s.count ⟨l, false⟩ }
   | .run i, _ => if i < s.count then some { s with task := upd s.task i { s.task i with done := true } } else none
-  | .startComplete l, .idle => some { s with pc := upd s.pc t (.c l s.count 0) }
-  | .await, .c l n pos =>
+  | .startComplete cl, .idle => some { s with pc := upd s.pc t (.snap s.count cl) }
+  | .beginAwait l, .snap n cl =>
+      some { s with pc := upd s.pc t (.c l (if loopAtAwait then some l else cl) n 0) }
+  | .await, .c l f n pos =>
       if pos < n then
-        (if (s.task pos).loop ≠ l ∧ skipForeign then some { s with pc := upd s.pc t (.c l n (pos + 1)) }
-         else if (s.task pos).done then some { s with pc := upd s.pc t (.c l n (pos + 1)) }
+        (if some (s.task pos).loop ≠ f ∧ skipForeign then some { s with pc := upd s.pc t (.c l f n (pos + 1)) }
+         else if (s.task pos).done then some { s with pc := upd s.pc t (.c l f n (pos + 1)) }
          else none)                               -- suspended until the task is done
       else none
-  | .finish, .c l n pos =>
+  | .finish, .c l f n pos =>
       if pos = n then some { s with pc := upd s.pc t .idle, returned := (l, n) :: s.returned } else none
   | _, _ => none
 
-def run (skipForeign : Bool) (s : St) : List (Tid × Lab) → St
+def run (skipForeign loopAtAwait : Bool) (s : St) : List (Tid × Lab) → St
   | [] => s
   | (t, lab) :: rest =>
-    match step skipForeign s t lab with
-    | some s' => run skipForeign s' rest
-    | none => run skipForeign s rest
+    match step skipForeign loopAtAwait s t lab with
+    | some s' => run skipForeign loopAtAwait s' rest
+    | none => run skipForeign loopAtAwait s rest
 
 structure Inv (s : St) : Prop where
-  /-- what a completer has passed is done (if it is of its loop), and its snapshot lies within the created tasks -/
-  pcs : ∀ t l n pos, s.pc t = .c l n pos → pos ≤ n ∧ n ≤ s.count ∧
+  /-- a snapshot lies within the created tasks -/
+  snaps : ∀ t n cl, s.pc t = .snap n cl → n ≤ s.count
+  /-- what a completer has passed is done (if it is of the loop it is awaited on), and its snapshot lies within the
+  created tasks; with the loop read at await time the skipped tasks are exactly those of other loops -/
+  pcs : ∀ t l f n pos, s.pc t = .c l f n pos → f = some l ∧ pos ≤ n ∧ n ≤ s.count ∧
           ∀ i, i < pos → (s.task i).loop = l → (s.task i).done = true
-  /-- every complete() that returned: all tasks of its loop in its snapshot are done -/
+  /-- every awaited complete() that returned: all tasks of its loop in its snapshot are done -/
   ret : ∀ l n, (l, n) ∈ s.returned → n ≤ s.count ∧ ∀ i, i < n → (s.task i).loop = l → (s.task i).done = true
 
 theorem inv_init : Inv ({} : St) := by
@@ -91,15 +107,44 @@ theorem inv_of_tasks {s s' : St} (h : Inv s) (hpc : s'.pc = s.pc) (hr : s'.retur
     (hm : ∀ i, i < s.count → (s'.task i).loop = (s.task i).loop ∧ ((s.task i).done = true → (s'.task i).done = true)) :
     Inv s' := by
   constructor
-  · intro t l n pos hq
+  · intro t n cl hq
     rw [hpc] at hq
-    exact carry hc hm (h.pcs t l n pos hq)
+    exact Nat.le_trans (h.snaps t n cl hq) hc
+  · intro t l f n pos hq
+    rw [hpc] at hq
+    obtain ⟨hf, rest⟩ := h.pcs t l f n pos hq
+    exact ⟨hf, carry hc hm rest⟩
   · intro l n hmem
     rw [hr] at hmem
     have := carry (pos := n) hc hm ⟨Nat.le_refl n, (h.ret l n hmem).1, (h.ret l n hmem).2⟩
     exact ⟨this.2.1, this.2.2⟩
 
-theorem inv_step {sf : Bool} {s s' : St} {t : Tid} {lab : Lab} (h : Inv s) (hs : step sf s t lab = some s') :
+/-- a step that changes only the moving thread's pc (and possibly `returned`) -/
+theorem inv_of_pc {s s' : St} {t : Tid} {p : Pc} (h : Inv s) (hc : s'.count = s.count) (ht : s'.task = s.task)
+    (hpc : s'.pc = upd s.pc t p)
+    (h1 : ∀ n cl, p = .snap n cl → n ≤ s.count)
+    (h2 : ∀ l f n pos, p = .c l f n pos → f = some l ∧ pos ≤ n ∧ n ≤ s.count ∧
+      ∀ i, i < pos → (s.task i).loop = l → (s.task i).done = true)
+    (h3 : ∀ l n, (l, n) ∈ s'.returned → (l, n) ∈ s.returned ∨
+      (n ≤ s.count ∧ ∀ i, i < n → (s.task i).loop = l → (s.task i).done = true)) : Inv s' := by
+  constructor
+  · intro u n cl hu
+    rw [hpc] at hu; rw [hc]
+    by_cases e : u = t
+    · subst e; simp only [upd_same] at hu; exact h1 n cl hu
+    · rw [upd_other _ _ _ _ e] at hu; exact h.snaps u n cl hu
+  · intro u l f n pos hu
+    rw [hpc] at hu; rw [hc, ht]
+    by_cases e : u = t
+    · subst e; simp only [upd_same] at hu; exact h2 l f n pos hu
+    · rw [upd_other _ _ _ _ e] at hu; exact h.pcs u l f n pos hu
+  · intro l n hm
+    rw [hc, ht]
+    rcases h3 l n hm with hm | hm
+    · exact h.ret l n hm
+    · exact hm
+
+theorem inv_step {sf : Bool} {s s' : St} {t : Tid} {lab : Lab} (h : Inv s) (hs : step sf true s t lab = some s') :
     Inv s' := by
   unfold step at hs
   split at hs
@@ -117,82 +162,78 @@ theorem inv_step {sf : Bool} {s s' : St} {t : Tid} {lab : Lab} (h : Inv s) (hs :
       simp only [upd]
       split <;> simp_all
     · simp at hs
-  · -- startComplete
-    rename_i l hq
+  · -- startComplete: the snapshot
     simp only [Option.some.injEq] at hs; subst hs
-    constructor
-    · intro u l' n pos hu
-      by_cases e : u = t
-      · subst e; simp [upd] at hu
-        obtain ⟨rfl, rfl, rfl⟩ := hu
-        exact ⟨Nat.zero_le _, Nat.le_refl _, by intro i hi; omega⟩
-      · simp [upd, e] at hu; exact h.pcs u l' n pos hu
-    · exact h.ret
+    refine inv_of_pc h rfl rfl rfl ?_ (by simp) (fun l n hm => Or.inl hm)
+    intro n cl he
+    simp only [Pc.snap.injEq] at he
+    omega
+  · -- beginAwait
+    rename_i l n cl hq
+    simp only [Option.some.injEq] at hs; subst hs
+    refine inv_of_pc h rfl rfl rfl (by simp) ?_ (fun l n hm => Or.inl hm)
+    intro l' f' n' pos' he
+    simp only [Pc.c.injEq, if_true] at he
+    obtain ⟨rfl, rfl, rfl, rfl⟩ := he
+    exact ⟨rfl, Nat.zero_le _, h.snaps t n cl hq, by intro i hi; omega⟩
   · -- await
-    rename_i l n pos hq
-    have hp := h.pcs t l n pos hq
+    rename_i l f n pos hq
+    obtain ⟨hf, hp⟩ := h.pcs t l f n pos hq
     split at hs
     · rename_i hlt
       split at hs
-      · rename_i hf
+      · rename_i hfor
         simp only [Option.some.injEq] at hs; subst hs
-        constructor
-        · intro u l' n' pos' hu
-          by_cases e : u = t
-          · subst e; simp [upd] at hu
-            obtain ⟨rfl, rfl, rfl⟩ := hu
-            refine ⟨by omega, hp.2.1, ?_⟩
-            intro i hi hl
-            by_cases e2 : i = pos
-            · subst e2; exact absurd hl hf.1
-            · exact hp.2.2 i (by omega) hl
-          · simp [upd, e] at hu; exact h.pcs u l' n' pos' hu
-        · exact h.ret
+        refine inv_of_pc h rfl rfl rfl (by simp) ?_ (fun l n hm => Or.inl hm)
+        intro l' f' n' pos' he
+        simp only [Pc.c.injEq] at he
+        obtain ⟨rfl, rfl, rfl, rfl⟩ := he
+        refine ⟨hf, by omega, hp.2.1, ?_⟩
+        intro i hi hl
+        by_cases e2 : i = pos
+        · subst e2
+          exfalso
+          apply hfor.1
+          rw [hf, hl]
+        · exact hp.2.2 i (by omega) hl
       · split at hs
         · rename_i hd
           simp only [Option.some.injEq] at hs; subst hs
-          constructor
-          · intro u l' n' pos' hu
-            by_cases e : u = t
-            · subst e; simp [upd] at hu
-              obtain ⟨rfl, rfl, rfl⟩ := hu
-              refine ⟨by omega, hp.2.1, ?_⟩
-              intro i hi hl
-              by_cases e2 : i = pos
-              · subst e2; exact hd
-              · exact hp.2.2 i (by omega) hl
-            · simp [upd, e] at hu; exact h.pcs u l' n' pos' hu
-          · exact h.ret
+          refine inv_of_pc h rfl rfl rfl (by simp) ?_ (fun l n hm => Or.inl hm)
+          intro l' f' n' pos' he
+          simp only [Pc.c.injEq] at he
+          obtain ⟨rfl, rfl, rfl, rfl⟩ := he
+          refine ⟨hf, by omega, hp.2.1, ?_⟩
+          intro i hi hl
+          by_cases e2 : i = pos
+          · subst e2; exact hd
+          · exact hp.2.2 i (by omega) hl
         · simp at hs
     · simp at hs
   · -- finish
-    rename_i l n pos hq
-    have hp := h.pcs t l n pos hq
+    rename_i l f n pos hq
+    obtain ⟨hf, hp⟩ := h.pcs t l f n pos hq
     split at hs
     · rename_i he
       simp only [Option.some.injEq] at hs; subst hs
-      constructor
-      · intro u l' n' pos' hu
-        by_cases e : u = t
-        · subst e; simp [upd] at hu
-        · simp [upd, e] at hu; exact h.pcs u l' n' pos' hu
-      · intro l' n' hmem
-        simp only [List.mem_cons, Prod.mk.injEq] at hmem
-        rcases hmem with ⟨rfl, rfl⟩ | hmem
-        · subst he; exact ⟨hp.2.1, hp.2.2⟩
-        · exact h.ret l' n' hmem
+      refine inv_of_pc h rfl rfl rfl (by simp) (by simp) ?_
+      intro l' n' hmem
+      simp only [List.mem_cons, Prod.mk.injEq] at hmem
+      rcases hmem with ⟨rfl, rfl⟩ | hmem
+      · subst he; exact Or.inr ⟨hp.2.1, hp.2.2⟩
+      · exact Or.inl hmem
     · simp at hs
   · simp at hs
 
-theorem inv_run (sf : Bool) (sched : List (Tid × Lab)) : Inv (run sf {} sched) := by
-  suffices h : ∀ s, Inv s → Inv (run sf s sched) from h {} inv_init
+theorem inv_run (sf : Bool) (sched : List (Tid × Lab)) : Inv (run sf true {} sched) := by
+  suffices h : ∀ s, Inv s → Inv (run sf true s sched) from h {} inv_init
   induction sched with
   | nil => intro s h; exact h
   | cons x xs ih =>
     intro s h
     obtain ⟨t, lab⟩ := x
     simp only [run]
-    cases hs : step sf s t lab with
+    cases hs : step sf true s t lab with
     | some s' => exact ih s' (inv_step h hs)
     | none => exact ih s h
 
